@@ -223,7 +223,7 @@ class XContext(ABC):
         return buf
 
     def __getstate__(self):
-        state = self.__dict__
+        state = self.__dict__.copy()
         del state["_buffers"]
         return state
 
